@@ -216,7 +216,9 @@ Definition rb (s : str) (p : nat) : nat := length (filter (fun c => negb (is_gap
 Definition degap (s : str) : str := filter (fun c => negb (is_gap c)) s.
 
 (* ---- domain ---------------------------------------------------------------------------------------------------- *)
-Definition in_nt (c : byte) : bool := existsb (byte_eqb c) (bs "ACGTU-"%bs).
+(* lower-case letters (soft-masked residues; reachable only by in-place edits, the constructor upper-cases) are residues
+   that belong to no codon: the codon words are upper case, str.translate leaves them alone *)
+Definition in_nt (c : byte) : bool := existsb (byte_eqb c) (bs "ACGTU-acgtu"%bs).
 Definition frame_ok (f : Z) : bool := (-3 <=? f) && (f <=? 2).
 Fixpoint nodupz (l : list Z) : bool :=
   match l with [] => true | x :: r => negb (existsb (Z.eqb x) r) && nodupz r end.
